@@ -21,6 +21,12 @@ type messageSetReader struct {
 	//
 	// This is used to detect truncation of the response.
 	lengthRemain int
+	// The last offset of the latest record batch found to hold no records, or
+	// -1 if there was none.
+	//
+	// Such batches are entirely consumed when their header has been read, the
+	// Batch uses this value to move past them.
+	emptyLastOffset int64
 
 	decompressed *bytes.Buffer
 }
@@ -87,9 +93,13 @@ func newMessageSetReader(reader *bufio.Reader, remain int) (*messageSetReader, e
 			reader: reader,
 			remain: remain,
 		},
-		decompressed: acquireBuffer(),
+		decompressed:    acquireBuffer(),
+		emptyLastOffset: -1,
 	}
-	err := res.readHeader()
+	// Only the first header is read here: running out of bytes after record
+	// batches that hold no records is the end of the message set, which
+	// readMessage reports, not a failure to set the reader up.
+	err := res.readNextHeader()
 	return res, err
 }
 
@@ -408,6 +418,20 @@ func (r *messageSetReader) readHeader() (err error) {
 		// currently reading a set of messages, no need to read a header until they are exhausted.
 		return
 	}
+	for {
+		if err = r.readNextHeader(); err != nil {
+			return
+		}
+		// Log compaction can leave record batches that hold no records at all
+		// behind. There is nothing to read from those, the next message is in
+		// the first batch that has one.
+		if r.header.magic != 2 || r.count != 0 {
+			return
+		}
+	}
+}
+
+func (r *messageSetReader) readNextHeader() (err error) {
 	r.header = messagesHeader{}
 	if err = r.readInt64(&r.header.firstOffset); err != nil {
 		return
@@ -482,6 +506,9 @@ func (r *messageSetReader) readHeader() (err error) {
 		r.count = int(r.header.v2.count)
 		// Subtracts the header bytes from the length
 		r.lengthRemain = int(r.header.length) - 49
+		if r.count == 0 {
+			r.emptyLastOffset = r.header.firstOffset + int64(r.header.v2.lastOffsetDelta)
+		}
 		if r.debug {
 			r.log("Read v2 header with count=%d offset=%d len=%d magic=%d attributes=%d", r.count, r.header.firstOffset, r.header.length, r.header.magic, r.header.v2.attributes)
 		}
